@@ -45,6 +45,9 @@ type frame struct {
 	depth            int
 }
 
+// DebugUnsupStack appends the interpreted call stack to every 'unsupported' reason (GOSMT_UNSUP_STACK=1).
+var DebugUnsupStack bool
+
 // enginePanic wraps an unexpected host panic with the stack at which it was first seen.
 type enginePanic struct {
 	v     interface{}
@@ -662,7 +665,16 @@ func (w *Worker) runFrame(fr *frame) {
 					fr.result = nil
 				}
 			}
-		case pathEnd, abortG, unsupported, enginePanic:
+		case unsupported:
+			if DebugUnsupStack && !strings.Contains(p.why, " @@ ") {
+				st := ""
+				for f, k := fr, 0; f != nil && k < 12; f, k = f.caller, k+1 {
+					st += " <- " + f.fn.String()
+				}
+				p.why += " @@ " + st
+			}
+			panic(p)
+		case pathEnd, abortG, enginePanic:
 			panic(r)
 		case runtime.Error:
 			panic(enginePanic{v: p.Error(), stack: string(debug.Stack())})
